@@ -25,6 +25,7 @@ RULE = (
     "around every DER length-form boundary (0,1,126..129,255..257,65535..65537,2^20), enc_cek 24/40 bytes, algorithm parameters "
     "absent/NULL/arbitrary TLV, arbitrary OIDs, both layouts. distinct = digest of the encoded blob; non-trivial = a DER length in long "
     "form with a different octet count than the Windows vectors, a non-ASCII name, or the trailing layout"
+    " Also: names from the tricky-text generator (byte-order marks, U+FFFF, ...); objects re-encoded after their fields were re-assigned."
 )
 ASSUMPTIONS = [
     "ref.der/ref.cms transcribe X.690 / RFC 5652 and the template of real NCryptProtectSecret output (16 Windows blobs parse strictly and rebuild byte-identically each run)",
